@@ -22,6 +22,9 @@ def nested(a):
     return a.tolist() if a.shape else a.item()
 
 
+from c15_guard import guarded  # noqa: E402
+
+
 def main():
     run = Run("C16")
     run.rule = ("abstract object arrays on batch shapes of rank 0-3 (dims 1-3), each stored in a random representation (shared NonTensorData / "
@@ -41,18 +44,20 @@ def main():
         run.leanchecker(["TdVerif.Props.C16"])
     drv = run.driver()
     import c16_streams as S
-    S.info_stream(run, drv)
-    S.getitem_stream(run, drv)
-    S.structure_stream(run, drv)
-    S.setitem_stream(run, drv)
-    S.reshape_stream(run, drv)
-    S.nested_stream(run, drv)
-    S.update_entry_stream(run, drv)
+    guarded(run, "info_stream", S.info_stream, run, drv)
+    guarded(run, "getitem_stream", S.getitem_stream, run, drv)
+    guarded(run, "structure_stream", S.structure_stream, run, drv)
+    guarded(run, "setitem_stream", S.setitem_stream, run, drv)
+    guarded(run, "reshape_stream", S.reshape_stream, run, drv)
+    guarded(run, "nested_stream", S.nested_stream, run, drv)
+    guarded(run, "update_entry_stream", S.update_entry_stream, run, drv)
+    guarded(run, "update_at_entry_stream", S.update_at_entry_stream, run)
     import c16_extended as E
-    E.advanced_reads(run)
-    E.writes(run)
-    E.combine_and_shape(run)
-    E.copy_independence(run)
+    guarded(run, "advanced_reads", E.advanced_reads, run)
+    guarded(run, "writes", E.writes, run)
+    guarded(run, "combine_and_shape", E.combine_and_shape, run)
+    guarded(run, "copy_independence", E.copy_independence, run)
+    guarded(run, "storage_writes", E.storage_writes, run)
     debug_dump(run)
     run.finish("proof")
 
